@@ -75,6 +75,11 @@ FMT_FRAGS = {"fmt_ipv6": {"type": "string", "format": "ipv6"}, "fmt_date": {"typ
 GROUP_FRAGS = {"ref_named": {"$ref": "#/definitions/Named"}, "ref_aged": {"$ref": "#/definitions/Aged"},
                "grp_a_b": {"allOf": [{"type": "object", "properties": {"a": INT}}, {"type": "object", "properties": {"b": STR}, "required": ["b"]}]},
                "grp_extra_c": {"allOf": [{"type": "object", "properties": {"extra": INT}, "required": ["extra"]}, {"$ref": "#/definitions/Base"}]}}
+# a oneOf of THREE branches one of which (a string) cannot meet an object operand: first, in the middle, last
+_BX = {"type": "object", "properties": {"x": INT, "u": STR}, "required": ["x"]}
+_BY = {"type": "object", "properties": {"y": {"type": "boolean"}, "v": STR}, "required": ["y"]}
+GROUP_FRAGS.update({"oneof3_sxy": {"oneOf": [STR, _BX, _BY]}, "oneof3_xsy": {"oneOf": [_BX, STR, _BY]}, "oneof3_xys": {"oneOf": [_BX, _BY, STR]}})
+ONEOF3_WITH = ["oneof3_sxy", "oneof3_xsy", "oneof3_xys", "a_req", "ref_base", "extra_req", "obj"]
 GROUP_WITH = ["ref_named", "ref_aged", "grp_a_b", "grp_extra_c", "a_req", "b_req", "ref_base", "ab_closed", "extra_req"]
 FMT_GROUP = ["fmt_ip", "fmt_ipv4", "fmt_ipv6", "fmt_uuid", "fmt_date", "fmt_datetime", "fmt_unknown", "fmt_only_ip", "str", "str_enum_ab"]
 QUICK = ["a_opt", "a_req", "b_req", "ab_closed", "ref_base", "ref_closed", "extra_req", "b_enum_xy", "b_enum_yz", "str_enum_ab", "enum_bc"]
@@ -118,6 +123,7 @@ def cases(tier, seed):
     combos += [c for c in itertools.permutations(FMT_GROUP, 2) if c not in set(combos)]
     FRAGS.update(GROUP_FRAGS)
     combos += [c for c in itertools.permutations(GROUP_WITH, 2) if c not in set(combos)]
+    combos += [c for c in itertools.permutations(ONEOF3_WITH, 2) if c not in set(combos) and any(n.startswith("oneof3") for n in c) and not all(n.startswith("oneof3") for n in c)]
     combos += list(itertools.permutations(TRIPLE if tier != "quick" else TRIPLE_QUICK, 3))
     out = lifted_cases(tier)
     for combo in combos:
